@@ -94,33 +94,44 @@ rbf_kernel!(c10_rbf_kernel_d3, 3);
 // polynomial kernel of integer degree 1..4: VALUE against the closed form (gamma <x,y> + coef0)^degree (negative bases and even
 // degrees included), symmetric.  powf is replaced by its mathematical meaning for integer exponents (semantic stub), so the check
 // is about values and indifferent to how the power is computed; natively (replay) the real powf is used.
-// @vp name=c10_polynomial_kernel_d2 prop=C10 tier=quick t=480 fns=PolynomialKernel::apply size=d=2 dom=lattice(-4..4),gamma-k/4,coef0-lattice(-2..4),degree1..4,f64 stubs=powf_sem64
-#[cfg_attr(kani, kani::proof)]
-#[cfg_attr(kani, kani::unwind(6))]
-#[cfg_attr(kani, kani::stub(f64::powf, crate::common::powf_sem64))]
-pub fn c10_polynomial_kernel_d2() {
-    let (xi, x) = latvec::<2>(-4, 4);
-    let (yi, y) = latvec::<2>(-4, 4);
-    let g2 = lat(1, 8);
-    let c0 = lat(-2, 4);
-    let deg = lat(1, 4);
-    let k = Kernels::polynomial(deg as f64, g2 as f64 / 4.0, c0 as f64);
-    let kxy: f64 = k.apply(&x, &y);
-    let kyx: f64 = k.apply(&y, &x);
-    let dot = xi[0] * yi[0] + xi[1] * yi[1];
-    // 4 * base is an integer: base^deg = (4 base)^deg / 4^deg, exactly representable
-    let b4 = (g2 * dot + 4 * c0) as i64;
-    let mut num = 1i64;
-    let mut den = 1i64;
-    for _ in 0..deg {
-        num *= b4;
-        den *= 4;
-    }
-    let want = num as f64 / den as f64;
-    vp_assert!((kxy - want).abs() <= 1e-9 * (1.0 + want.abs()), "C10:polynomial-kernel-closed-form");
-    vp_assert!((kyx - kxy).abs() <= 1e-9 * (1.0 + want.abs()), "C10:polynomial-kernel-symmetric");
-    vp_reached!();
+macro_rules! polynomial_kernel {
+    ($name:ident, $deg:expr) => {
+        #[cfg_attr(kani, kani::proof)]
+        #[cfg_attr(kani, kani::unwind(6))]
+        #[cfg_attr(kani, kani::stub(f64::powf, crate::common::powf_sem64))]
+        pub fn $name() {
+            let (xi, x) = latvec::<2>(-4, 4);
+            let (yi, y) = latvec::<2>(-4, 4);
+            let g2 = lat(1, 8);
+            let c0 = lat(-2, 4);
+            let deg: i32 = $deg;
+            let k = Kernels::polynomial(deg as f64, g2 as f64 / 4.0, c0 as f64);
+            let kxy: f64 = k.apply(&x, &y);
+            let kyx: f64 = k.apply(&y, &x);
+            let dot = xi[0] * yi[0] + xi[1] * yi[1];
+            // 4 * base is an integer: base^deg = (4 base)^deg / 4^deg, exactly representable
+            let b4 = (g2 * dot + 4 * c0) as i64;
+            let mut num = 1i64;
+            let mut den = 1i64;
+            for _ in 0..deg {
+                num *= b4;
+                den *= 4;
+            }
+            let want = num as f64 / den as f64;
+            vp_assert!((kxy - want).abs() <= 1e-9 * (1.0 + want.abs()), "C10:polynomial-kernel-closed-form");
+            vp_assert!((kyx - kxy).abs() <= 1e-9 * (1.0 + want.abs()), "C10:polynomial-kernel-symmetric");
+            vp_reached!();
+        }
+    };
 }
+// @vp name=c10_polynomial_kernel_deg2 prop=C10 tier=quick t=480 fns=PolynomialKernel::apply size=d=2,degree=2 dom=lattice(-4..4),gamma-k/4,coef0-lattice(-2..4),f64 stubs=powf_sem64
+polynomial_kernel!(c10_polynomial_kernel_deg2, 2);
+// @vp name=c10_polynomial_kernel_deg3 prop=C10 tier=quick t=480 fns=PolynomialKernel::apply size=d=2,degree=3 dom=lattice(-4..4),gamma-k/4,coef0-lattice(-2..4),f64 stubs=powf_sem64
+polynomial_kernel!(c10_polynomial_kernel_deg3, 3);
+// @vp name=c10_polynomial_kernel_deg1 prop=C10 tier=quick t=480 fns=PolynomialKernel::apply size=d=2,degree=1 dom=lattice(-4..4),gamma-k/4,coef0-lattice(-2..4),f64 stubs=powf_sem64
+polynomial_kernel!(c10_polynomial_kernel_deg1, 1);
+// @vp name=c10_polynomial_kernel_deg4 prop=C10 tier=thorough t=1800 fns=PolynomialKernel::apply size=d=2,degree=4 dom=lattice(-4..4),gamma-k/4,coef0-lattice(-2..4),f64 stubs=powf_sem64
+polynomial_kernel!(c10_polynomial_kernel_deg4, 4);
 // @vp name=c10_polynomial_with_degree prop=C10 tier=quick t=300 fns=Kernels::polynomial_with_degree size=n_features=4 dom=concrete
 vp_proof! {
     fn c10_polynomial_with_degree() {
